@@ -138,9 +138,11 @@ def canon(idnt):
             p = S[k]
             if p is None:
                 raise core.HarnessError("walk keeps params_initial explicit")
-            out.append((k, tuple(
+            # (by name: the order of the entries of a parameter set is
+            # a representation detail, like the key order of a dictionary)
+            out.append((k, tuple(sorted(
                 (n, fhex(q.value), fhex(q.min), fhex(q.max), bool(q.vary),
-                 q.expr) for n, q in p.items())))
+                 q.expr) for n, q in p.items()))))
         else:
             out.append((k, cval(S[k])))
     return core.digest(out)
